@@ -128,9 +128,9 @@ Print Assumptions modelless_uses_latest_without_monotonic_ids_refuted.
    at its start, in every event history.  Missing part: requests that join a lookup already in
    flight, refuted below. *)
 Theorem modelless_uses_latest_concurrent_partial :
-  forall (body : Type) (h : list (cev body)),
-    leaders_fresh body (crun body h) = true /\
-    (some_joined body (crun body h) = false -> all_fresh body (crun body h) = true).
+  forall (body : Type) (fkey : bytes -> bytes) (h : list (cev body)),
+    leaders_fresh body (crun body fkey h) = true /\
+    (some_joined body (crun body fkey h) = false -> all_fresh body (crun body fkey h) = true).
 Proof. exact c17_concurrent_partial. Qed.
 Print Assumptions modelless_uses_latest_concurrent_partial.
 
@@ -138,6 +138,22 @@ Theorem modelless_uses_latest_concurrent_refuted :
   exists h, t_all_fresh (t_crun h) = false /\ t_some_joined (t_crun h) = true /\ t_leaders_fresh (t_crun h) = true.
 Proof. exact c17_singleflight_stale. Qed.
 Print Assumptions modelless_uses_latest_concurrent_refuted.
+
+(* Isolation of the lookup between stores: with the key as coded
+   ("FindLatestAuthorizationModel:" + storeID) every request, leader or follower, in every
+   interleaving of writes, request starts and lookup completions over any number of stores, is
+   served by a lookup that was made for its own store. *)
+Theorem latest_lookup_isolated :
+  forall (body : Type) (h : list (cev body)), all_own_store body (crun body lookup_key h) = true.
+Proof. exact c17_latest_lookup_isolated. Qed.
+Print Assumptions latest_lookup_isolated.
+
+(* The store id in the key is what it rests on: with a key that omits it, a request for one
+   store is served another store's latest model. *)
+Theorem latest_lookup_isolated_without_store_in_key_refuted :
+  exists h, t_all_own_store (t_crun_no_store h) = false /\ t_all_own_store (t_crun h) = true.
+Proof. exact c17_latest_lookup_isolated_needs_store_in_key. Qed.
+Print Assumptions latest_lookup_isolated_without_store_in_key_refuted.
 
 (* ---- non-vacuity ------------------------------------------------------------------------ *)
 Definition xs : bytes := ex_id 49.
